@@ -452,8 +452,6 @@ def fallback_case(acc, relfile, tag, fault, case, do_save_when_decoded=False, in
         if getattr(t, "data", None) != newp:
             acc.fail(clause + ":keep", "payload-not-kept", "DefaultTable.data has %s bytes, payload has %d" % (len(t.data) if hasattr(t, "data") else "no", len(newp)), case)
             return "not-kept"
-    loaded_before = set(_tagb(k) for k in fB.tables.keys() if k != "GlyphOrder")
-    fellback = set(k for k in loaded_before if hasattr(fB.tables[k.decode("latin-1")], "ERROR"))
     out = io.BytesIO()
     try:
         with time_limit(120):
@@ -469,6 +467,10 @@ def fallback_case(acc, relfile, tag, fault, case, do_save_when_decoded=False, in
         return "decoded:save-raised"
     if not fell:
         return "decoded:saved"
+    # tables never decompiled (not even during save) are raw copies; tables that fell back are raw too;
+    # anything else was decoded and recompiled by save() (dependencies): not compared
+    loaded_before = set(_tagb(k) for k in fB.tables.keys() if k != "GlyphOrder")
+    fellback = set(k for k in loaded_before if hasattr(fB.tables[k.decode("latin-1")], "ERROR"))
     try:
         _, _, ents = F.parse_sfnt_dir(out.getvalue())
         got = F.sfnt_slices(out.getvalue(), ents)
